@@ -1,14 +1,15 @@
 #!/bin/bash
 # usage: try_mutant_iso.sh <patch.diff> <prop> [more props...]
-# Runs the quick checks against a seeded change WITHOUT touching /repo or /verif: a copy of /verif under /tmp/iso/verif whose harness
-# depends on a scratch worktree of /repo (/tmp/iso/repo) with the patch applied. (Exploration only; the recorded matrix uses /repo itself.)
+# Runs the quick checks against a seeded change WITHOUT touching /repo or /verif: a copy of /verif under $ISO/verif whose harness
+# depends on a scratch worktree of /repo ($ISO/repo) with the patch applied. (Exploration only; the recorded matrix uses /repo itself.)
 P="$(readlink -f "$1")"; shift
-mkdir -p /tmp/iso
-if [ ! -d /tmp/iso/repo ]; then git -C /repo worktree add -q --detach /tmp/iso/repo HEAD && cp /repo/Cargo.lock /tmp/iso/repo/; fi
-( cd /tmp/iso/repo && git checkout -q --detach "$(git -C /repo rev-parse HEAD)" && git checkout -- . && git apply "$P" ) || { echo "patch does not apply"; exit 2; }
-rsync -a --delete --exclude out --exclude harness/target --exclude .git /verif/ /tmp/iso/verif/
-sed -i 's#path = "/repo"#path = "/tmp/iso/repo"#' /tmp/iso/verif/harness/Cargo.toml
+ISO="${ISO:-/tmp/iso}"
+mkdir -p $ISO
+if [ ! -d $ISO/repo ]; then git -C /repo worktree add -q --detach $ISO/repo HEAD && cp /repo/Cargo.lock $ISO/repo/; fi
+( cd $ISO/repo && git checkout -q --detach "$(git -C /repo rev-parse HEAD)" && git checkout -- . && git apply "$P" ) || { echo "patch does not apply"; exit 2; }
+rsync -a --delete --exclude out --exclude harness/target --exclude .git /verif/ $ISO/verif/
+sed -i "s#path = \"/repo\"#path = \"$ISO/repo\"#" $ISO/verif/harness/Cargo.toml
 for prop in "$@"; do
-  ( cd /tmp/iso/verif && timeout 1800 bin/check "$prop" quick 2>&1 | grep -E 'VIOLATION|KNOWN|TOOL|clause=|runs validated|cases \(' ; echo "rc($prop)=${PIPESTATUS[0]}" )
+  ( cd $ISO/verif && timeout 1800 bin/check "$prop" quick 2>&1 | grep -E 'VIOLATION|KNOWN|TOOL|clause=|runs validated|cases \(' ; echo "rc($prop)=${PIPESTATUS[0]}" )
 done
-( cd /tmp/iso/repo && git checkout -- . )
+( cd $ISO/repo && git checkout -- . )
